@@ -1,29 +1,37 @@
 #!/usr/bin/env python3
-"""Sensitivity test: apply a textual mutation to /repo, run checks, restore.
+"""Sensitivity test: apply a textual mutation to a scratch worktree of /repo's
+HEAD, run checks against it (PYCEL_REPO_SRC), remove the worktree.  /repo
+itself is never touched.
 
-usage: sens.py <props comma list> <file> <old> <new> [--tier quick]
-Refuses to run if /repo has uncommitted changes."""
-import subprocess, sys, os
+usage: sens.py <props comma list> <file> <old> <new> [--tier quick]"""
+import os
+import subprocess
+import sys
+
 props, path, old, new = sys.argv[1:5]
-repo = '/repo'
-if subprocess.run(['git', '-C', repo, 'status', '--porcelain', '--untracked-files=no'],
-                  capture_output=True, text=True).stdout.strip():
-    sys.exit('repo dirty')
-full = os.path.join(repo, path)
-src = open(full).read()
-if src.count(old) < 1:
-    sys.exit(f'pattern not found in {path}')
+wt = f'/tmp/wt-sens-{os.getpid()}'
+subprocess.run(['git', '-C', '/repo', 'worktree', 'add', '--detach', wt,
+                'HEAD'], capture_output=True, check=True)
 try:
+    full = os.path.join(wt, path)
+    src = open(full).read()
+    if src.count(old) < 1:
+        sys.exit(f'pattern not found in {path}')
     open(full, 'w').write(src.replace(old, new, 1))
+    env = dict(os.environ, PYCEL_REPO_SRC=wt + '/src')
     for p in props.split(','):
         r = subprocess.run(['./check', p] + sys.argv[5:], cwd='/verif',
-                           capture_output=True, text=True)
+                           capture_output=True, text=True, env=env)
         lines = r.stdout.strip().splitlines()
         viol = [l for l in lines if l.startswith('VIOLATION')]
-        print(f'{p}: exit={r.returncode} violations={len(viol)} :: {lines[-1] if lines else r.stderr[-300:]}')
+        print(f'{p}: exit={r.returncode} violations={len(viol)} :: '
+              f'{lines[-1] if lines else r.stderr[-300:]}')
         for l in lines:
             if l.startswith('  class:'):
-                print('   ', l.strip()); break
+                print('   ', l.strip())
+                break
 finally:
-    subprocess.run(['git', '-C', repo, 'checkout', '--', '.'])
-    subprocess.run(['rm', '-rf'] + [f'/verif/replays/{p}/found' for p in props.split(',')])
+    subprocess.run(['git', '-C', '/repo', 'worktree', 'remove', '--force',
+                    wt], capture_output=True)
+    subprocess.run(['rm', '-rf'] + [f'/verif/replays/{p}/found'
+                                    for p in props.split(',')])
